@@ -206,6 +206,11 @@ func (wr *warnResponseWrapper) Write(b []byte) (int, error) {
 
 // WriteHeader implements http.ResponseWriter.
 func (wr *warnResponseWrapper) WriteHeader(status int) {
+	if isInformational(status) {
+		// 1xx: sent at once, the response and its status are still to come
+		wr.w.WriteHeader(status)
+		return
+	}
 	if !wr.headerWritten {
 		// If the header hasn't been written, record the status for response
 		// validation.
@@ -262,6 +267,10 @@ func (wr *strictResponseWrapper) Write(b []byte) (int, error) {
 
 // WriteHeader implements http.ResponseWriter.
 func (wr *strictResponseWrapper) WriteHeader(status int) {
+	if isInformational(status) {
+		// 1xx: not the status of the response; nothing is sent before the response validated
+		return
+	}
 	if !wr.headerWritten {
 		wr.status = status
 		wr.headerWritten = true
@@ -289,4 +298,10 @@ func (wr *strictResponseWrapper) statusCode() int {
 
 func (wr *strictResponseWrapper) bodyContents() []byte {
 	return wr.body.Bytes()
+}
+
+// isInformational tells whether status is a 1xx code that net/http sends ahead of the response
+// (everything but 101, which ends the exchange).
+func isInformational(status int) bool {
+	return status >= 100 && status <= 199 && status != http.StatusSwitchingProtocols
 }
